@@ -174,7 +174,7 @@ func apply(root *TLV, m mutation) *TLV {
 	case mLenIndef:
 		n.RawLen = []byte{0x80}
 	case mLenHuge:
-		n.RawLen = []byte{0x84, 0x7f, 0xff, 0xff, 0xff}
+		n.RawLen = []byte{0x83, 0x10, 0x00, 0x00} // 1 MiB announced, never sent
 	case mLenFF:
 		n.RawLen = []byte{0xff}
 	case mFlipCons:
